@@ -172,6 +172,10 @@ def shard(p):
                 schedule.append((qi, flag))
                 flag = not flag
         rng.shuffle(schedule)
+        # ... and once more with near-duplicate queries next to each other (sorted by text, ascending then descending): whatever
+        # the evaluator or the database remembers from one evaluation to the next is asked the most confusable question next
+        by_text = sorted(range(len(queries)), key=lambda i: (queries[i][0].lower(), queries[i][0]))
+        schedule += [(qi, j % 2 == 0) for j, qi in enumerate(by_text)] + [(qi, j % 2 == 1) for j, qi in enumerate(reversed(by_text))]
         reqs = [{"op": "query", "q": queries[qi][0], "describe": flag} for qi, flag in schedule]
         reps = []
         for i in range(0, len(reqs), 2000):
@@ -252,8 +256,7 @@ def run(tier, seed):
     ty = [{"tokens": f["tokens"]} for f in facts if FX.typeable(f["tokens"])]
     n = 450 if tier == "quick" else 1500
     payloads = [{"seed": seed, "shard": i, "facts": ty, "n": n, "bin": bins["dbg"], "kind": "dbg"} for i in range(NCPU)]
-    if tier == "thorough":
-        payloads += [{"seed": seed, "shard": 100 + i, "facts": ty, "n": n // 3, "bin": bins["rel"], "kind": "rel"} for i in range(NCPU)]
+    payloads += [{"seed": seed, "shard": 100 + i, "facts": ty, "n": n // 3, "bin": bins["rel"], "kind": "rel"} for i in range(NCPU if tier == "thorough" else 4)]
     acc = run_shards(shard, payloads)
     return finish(PID, tier, seed, "exploration", acc, RULE, t0,
                   assumptions=["the lookup log is written by the hook inside Db::lookup (database boundary), not inside the evaluator",
